@@ -313,6 +313,8 @@ def _check_import_insertion(ctx, f, call, node_param):
                     rest = stmts_[1:]
                     if any(isinstance(x, ast.Expr) and x.value is call for x in rest):
                         return "insert"
+                    if not rest or all(isinstance(x, (ast.Pass, ast.Continue)) for x in rest):
+                        return "skip"  # nothing else in the loop body: on to the next statement of the module
                     raise AnalysisError("C10.2: import-placement chain has an unrecognised form")
                 raise AnalysisError("C10.2: import-placement chain has an unrecognised branch")
             if any(isinstance(x, ast.Expr) and x.value is call for x in stmts_):
